@@ -58,8 +58,13 @@ func main() {
 	}
 }
 
-func loadSpec(vd, prop string) (*Spec, error) {
-	data, err := os.ReadFile(filepath.Join(vd, "harness", prop, "spec.json"))
+func loadSpec(vd, prop string) (*Spec, error) { return loadSpecFile(vd, prop, "spec.json") }
+
+func loadSpecFile(vd, prop, file string) (*Spec, error) {
+	if file == "" {
+		file = "spec.json"
+	}
+	data, err := os.ReadFile(filepath.Join(vd, "harness", prop, file))
 	if err != nil {
 		return nil, err
 	}
@@ -87,6 +92,7 @@ type replayRec struct {
 	Params map[string]int `json:"params,omitempty"`
 	Pkg    string         `json:"pkg"`
 	Prop   string         `json:"property"`
+	Part   string         `json:"part,omitempty"` // spec file of the part this entry belongs to
 }
 
 func cmdCheck(args []string) int {
@@ -137,73 +143,113 @@ func cmdCheck(args []string) int {
 		fmt.Fprintf(os.Stderr, "ERROR: %v\n", err)
 		return 2
 	}
-	eng := &Engine{spec: spec, verifDir: vd, logw: os.Stderr, tier: *tier, noIfConv: os.Getenv("VERIF_NO_IFCONV") != ""}
-	if !*verbose {
-		eng.logw = &bytes.Buffer{}
+	type partRun struct {
+		file string
+		spec *Spec
+		eng  *Engine
 	}
-	eng.initIntrinsics()
-	eng.initIntrinsics2()
-	if err := eng.load(); err != nil {
-		fmt.Fprintf(os.Stderr, "ERROR: load: %v\n", err)
-		return 2
-	}
-	loadT := time.Since(t0)
-	var entries []EntryCfg
-	for _, e := range spec.Entries {
-		if e.Tier == "thorough" && *tier != "thorough" {
-			continue
+	parts := []*partRun{{file: "", spec: spec}}
+	for _, pf := range spec.Parts {
+		ps, err := loadSpecFile(vd, prop, pf)
+		if err != nil {
+			fmt.Fprintf(os.Stderr, "ERROR: %v\n", err)
+			return 2
 		}
-		if e.Tier == "quickonly" && *tier != "quick" {
-			continue
-		}
-		if *only != "" {
-			found := false
-			for _, o := range strings.Split(*only, ",") {
-				if o == e.Func {
-					found = true
-				}
+		ps.Property = spec.Property
+		parts = append(parts, &partRun{file: pf, spec: ps})
+		// the main spec's evidence texts cover all parts
+		for k, v := range ps.Bounds {
+			if spec.Bounds == nil {
+				spec.Bounds = map[string]string{}
 			}
-			if !found {
+			spec.Bounds[k] = v
+		}
+		spec.Assumptions = append(spec.Assumptions, ps.Assumptions...)
+		spec.Stubs = append(spec.Stubs, ps.Stubs...)
+		spec.Outside = append(spec.Outside, ps.Outside...)
+	}
+	var results []*EntryResult
+	var ws []*Worker
+	var loadT time.Duration
+	entryPart := map[string]*partRun{}
+	for _, part := range parts {
+		tl := time.Now()
+		spec := part.spec
+		eng := &Engine{spec: spec, verifDir: vd, logw: os.Stderr, tier: *tier, noIfConv: os.Getenv("VERIF_NO_IFCONV") != ""}
+		part.eng = eng
+		if !*verbose {
+			eng.logw = &bytes.Buffer{}
+		}
+		eng.initIntrinsics()
+		eng.initIntrinsics2()
+		if err := eng.load(); err != nil {
+			fmt.Fprintf(os.Stderr, "ERROR: load: %v\n", err)
+			return 2
+		}
+		loadT += time.Since(tl)
+		var entries []EntryCfg
+		for _, e := range spec.Entries {
+			if e.Tier == "thorough" && *tier != "thorough" {
 				continue
 			}
-		}
-		if e.Unwind == 0 {
-			e.Unwind = 16
-		}
-		if e.MaxSteps == 0 {
-			e.MaxSteps = 4000000
-		}
-		if e.MaxValues == 0 {
-			e.MaxValues = 64
-		}
-		if e.Pkg == "" {
-			e.Pkg = spec.Packages[0]
-		}
-		if v := os.Getenv("VERIF_ENTRY_TIMEOUT"); v != "" {
-			e.TimeoutS, _ = strconv.Atoi(v)
-		}
-		if *tier == "thorough" && e.ParamsT != nil {
-			if e.Params == nil {
-				e.Params = map[string]int{}
+			if e.Tier == "quickonly" && *tier != "quick" {
+				continue
 			}
-			merged := map[string]int{}
-			for k, v := range e.Params {
-				merged[k] = v
+			if *only != "" {
+				found := false
+				for _, o := range strings.Split(*only, ",") {
+					if o == e.Func {
+						found = true
+					}
+				}
+				if !found {
+					continue
+				}
 			}
-			for k, v := range e.ParamsT {
-				merged[k] = v
+			if e.Unwind == 0 {
+				e.Unwind = 16
 			}
-			e.Params = merged
+			if e.MaxSteps == 0 {
+				e.MaxSteps = 4000000
+			}
+			if e.MaxValues == 0 {
+				e.MaxValues = 64
+			}
+			if e.Pkg == "" {
+				e.Pkg = spec.Packages[0]
+			}
+			if v := os.Getenv("VERIF_ENTRY_TIMEOUT"); v != "" {
+				e.TimeoutS, _ = strconv.Atoi(v)
+			}
+			if *tier == "thorough" && e.ParamsT != nil {
+				if e.Params == nil {
+					e.Params = map[string]int{}
+				}
+				merged := map[string]int{}
+				for k, v := range e.Params {
+					merged[k] = v
+				}
+				for k, v := range e.ParamsT {
+					merged[k] = v
+				}
+				e.Params = merged
+			}
+			entries = append(entries, e)
+			entryPart[e.Func] = part
 		}
-		entries = append(entries, e)
+		if len(entries) == 0 {
+			continue
+		}
+		r, w, err := eng.explore(entries, *workers, *solver, *qto)
+		if err != nil {
+			fmt.Fprintf(os.Stderr, "ERROR: %v\n", err)
+			return 2
+		}
+		results = append(results, r...)
+		ws = append(ws, w...)
 	}
-	if len(entries) == 0 {
+	if len(results) == 0 {
 		fmt.Fprintf(os.Stderr, "ERROR: no entries\n")
-		return 2
-	}
-	results, ws, err := eng.explore(entries, *workers, *solver, *qto)
-	if err != nil {
-		fmt.Fprintf(os.Stderr, "ERROR: %v\n", err)
 		return 2
 	}
 	exploreT := time.Since(t0) - loadT
@@ -231,7 +277,7 @@ func cmdCheck(args []string) int {
 				continue
 			}
 			seen[k] = true
-			recs = append(recs, replayRec{Entry: v.Entry, Label: v.Label, Kind: v.Kind, Where: v.Where, Values: v.Values, Params: er.Cfg.Params, Pkg: er.Cfg.Pkg, Prop: spec.Property})
+			recs = append(recs, replayRec{Entry: v.Entry, Label: v.Label, Kind: v.Kind, Where: v.Where, Values: v.Values, Params: er.Cfg.Params, Pkg: er.Cfg.Pkg, Prop: spec.Property, Part: entryPart[v.Entry].file})
 		}
 	}
 	known := KnownFile{}
@@ -258,7 +304,25 @@ func cmdCheck(args []string) int {
 				outcomes[i] = "skipped"
 			}
 		} else {
-			outcomes = eng.nativeReplay(rfile, recs)
+			outcomes = make([]string, len(recs))
+			for _, part := range parts {
+				var sub []replayRec
+				var idx []int
+				for i, r := range recs {
+					if r.Part == part.file {
+						sub = append(sub, r)
+						idx = append(idx, i)
+					}
+				}
+				if len(sub) == 0 {
+					continue
+				}
+				pfile := filepath.Join(replayDir, "cex_part_"+strings.TrimSuffix(part.file, ".json")+".json")
+				writeJSON(pfile, sub)
+				for k, oc := range part.eng.nativeReplay(pfile, sub) {
+					outcomes[idx[k]] = oc
+				}
+			}
 		}
 		for i, r := range recs {
 			oc := outcomes[i]
@@ -554,11 +618,12 @@ func cmdReplay(args []string) int {
 		return 2
 	}
 	vd := verifDir()
-	spec, err := loadSpec(vd, recs[0].Prop)
+	spec, err := loadSpecFile(vd, recs[0].Prop, recs[0].Part)
 	if err != nil {
 		fmt.Fprintln(os.Stderr, err)
 		return 2
 	}
+	spec.Property = recs[0].Prop
 	eng := &Engine{spec: spec, verifDir: vd, logw: os.Stderr}
 	eng.initIntrinsics()
 	eng.initIntrinsics2()
